@@ -6,7 +6,8 @@ User records (one global list, appended under the recorder's lock):
 
     ["user", thread, unit, "enter", {name: value token}]   when the unit's code starts ({} for non-consumers)
     ["user", thread, unit, "act:<i>", null]                BEFORE act i (0-based index in that script) executes
-    ["user", thread, unit, "raise:<kind>", null]           a `raise` act (after its act:<i>); kind exc|AbortTest|AbortSuite|AbortAllTests
+    ["user", thread, unit, "raise:<kind>", null|{"base": cls}]   a `raise` act (after its act:<i>); kind exc|AbortTest|AbortSuite|AbortAllTests;
+                                                           {"base": "SystemExit"|"GeneratorExit"|"CustomBase"}: the object is a BaseException that is no Exception
     ["user", thread, unit, "raise:interrupted", null]      a public-api act raised by itself (AbortTest of `_interruptible`)
     ["user", thread, unit, "exit", null]                   the script completed normally
 
@@ -49,6 +50,15 @@ class ProjectPanic(BaseException):
 
 _BASE_RAISES = {"SystemExit": SystemExit, "GeneratorExit": GeneratorExit, "CustomBase": ProjectPanic}
 _SUB_RAISES = {"AbortTest": TestGivesUp, "AbortSuite": SuiteUnusable, "AbortAllTests": EnvironmentDown}
+
+
+def abort_args(shape, msg):
+    """constructor arguments of an Abort* exception (`"args"` of a raise act, run.gen.ABORT_ARGS): a message string
+    (default), nothing, the exception that was caught (`raise lcc.AbortTest(e)`), a number, a message and a code, two
+    strings"""
+    if not shape:
+        return (msg,)
+    return {"none": (), "exc": (ValueError(msg),), "int": (404,), "two": (msg, 7), "twostr": (msg, "giving up")}[shape]
 
 
 def unit_str(unit):
@@ -119,10 +129,14 @@ class Interp:
         a = act["a"]
         msg = "%s#%d" % (unit_str(unit), i)
         if a == "raise":
-            self.user(unit, "raise:" + act["kind"], None)
-            exc = (_SUB_RAISES if act.get("sub") else _RAISES)[act["kind"]]("boom " + msg)
+            # (the record of a BaseException that is not an Exception says which class: `lcc.Thread.run` treats it
+            # differently from an `Exception`)
+            self.user(unit, "raise:" + act["kind"], {"base": act["base"]} if act.get("base") else None)
+            cls = (_SUB_RAISES if act.get("sub") else _RAISES)[act["kind"]]
+            exc = cls(*abort_args(act.get("args"), "boom " + msg))
             if act.get("base"):
                 exc = _BASE_RAISES[act["base"]]("boom " + msg)
+                exc._lccverif_base = act["base"]
             exc._lccverif_kind = act["kind"]
             raise exc
         if a == "gate":
@@ -162,7 +176,8 @@ class Interp:
                     # (or the file system) raised by itself
                     self.api_errors.append([unit, i, type(e).__name__, str(e)])
                     kind = "interrupted"
-                self.user(unit, "raise:" + kind, None)
+                base = getattr(e, "_lccverif_base", None)
+                self.user(unit, "raise:" + kind, {"base": base} if base else None)
                 raise
             return
         try:
